@@ -367,7 +367,6 @@ func functions() []string {
 
 // ---------------------------------------------------------------- driver
 
-
 func usesRefs(e string) (bool, bool) { return strings.Contains(e, `"x"`), strings.Contains(e, `"y"`) }
 
 func TestCheck(t *testing.T) {
